@@ -125,13 +125,6 @@ CHECKS = {
         technique="TLA+ model checking (TLC) of safe_join / secure_filename transcriptions against the containment contract + table replay + trace validation of real safe_join calls, static-file requests over a sentinel tree, and secure_filename",
         design_ref="6/C14",
     ),
-    "C05": dict(
-        category="model_checking",
-        text="TLC exhaustively checks a sequential TLA+ model of every Headers mutator over all histories of a bounded universe (no CR/LF value is ever stored, a call raises exactly when it attempts to store one) and the finalisation decision table (body shape x items x status int/HTTPStatus/'code reason' x method x preset Content-Length x Location x autocorrect x pre-access x close callbacks x server plan) against the clauses of the property; every exported transition / table row is executed on real Headers / Response objects and seeded random histories and responses far outside the model alphabets are recorded; each line is judged by the TLC trace spec (native CR/LF-free values, refusal, computed Content-Length = bytes produced, no body for HEAD/1xx/204/304, no Content-Length for 1xx/204, ASCII Location, every callback and the iterable's close exactly once), other disagreements are model drift.",
-        note="Trusted: TLC, the JSON trace encoding, the recorders/spies in harness/response.py. Exhaustive only within the model bounds (names X/x/Y, list length <= 3, item alphabet a/e-acute/empty/lone byte, 13 status codes); beyond that seeded sampling. Header names, status strings, freeze(), str-subclass values and Locations that urlsplit/IDNA reject are outside the claim.",
-        technique="TLA+ model checking (TLC) of mutator histories and the finalisation table + trace validation of real Headers/Response runs",
-        design_ref="6/C05",
-    ),
     "C15": dict(
         category="model_checking",
         text="TLC checks an implementation-shaped TLA+ model of the per-component IRI<->URI conversions against a contract over observables (ASCII, idempotence of each direction and of both round trips, component meaning = raw reserved delimiters vs data bytes unchanged, reserved/control escapes never unquoted, clean IRIs undone exactly) for every component string over symbol alphabets, and the DispatcherMiddleware loop against 'longest matching mount, SCRIPT_NAME+PATH_INFO preserved' for every mount table and path within bounds; the TLC tables are replayed on iri_to_uri/uri_to_iri/DispatcherMiddleware, and seeded URLs (userinfo, ASCII/IDN/IPv4/IPv6 hosts, ports, Unicode and all escape classes), EnvironBuilder->Request round trips (path, args, host, url, base_url, wsgi.get_current_url), dispatcher requests and the latin-1 dance are judged line by line by the TLC trace spec, which also reports model drift.",
@@ -152,6 +145,13 @@ CHECKS = {
         note="Trusted: TLC, the JSON trace encoding, the recorder in harness/mp.py. Reference = the real code's own one-piece decode (the property is independence). Exhaustive only within the model bounds (boundary b/bnd, 5-6 symbol alphabet, payload <= 4, <= 3 chunks); beyond that sampled.",
         technique="TLA+ model checking (TLC) + trace validation of the real decoder against the spec",
         design_ref="6/C01",
+    ),
+    "C05": dict(
+        category="model_checking",
+        text="TLC exhaustively checks a sequential TLA+ model of every Headers mutator over all histories of a bounded universe (no CR/LF value is ever stored, a call raises exactly when it attempts to store one) and the finalisation decision table (body shape x items x status int/HTTPStatus/'code reason' x method x preset Content-Length x Location x autocorrect x pre-access x close callbacks x server plan) against the clauses of the property; every exported transition / table row is executed on real Headers / Response objects and seeded random histories and responses far outside the model alphabets are recorded; each line is judged by the TLC trace spec (native CR/LF-free values, refusal, computed Content-Length = bytes produced, no body for HEAD/1xx/204/304, no Content-Length for 1xx/204, ASCII Location, every callback and the iterable's close exactly once), other disagreements are model drift.; plus a TLA+ state machine of the response body between construction and output (set_data/data/get_data, response assignment, make_sequence, freeze, iter_encoded, calculate_content_length, stream write/writelines/tell, implicit_sequence_conversion and direct_passthrough toggles) model-checked over all histories of depth <= 4, its exported transition system replayed on real Response objects and seeded histories judged against the same clauses; and every werkzeug.exceptions class plus RequestRedirect rendered via get_response/__call__ with CR/LF / non-ASCII arguments, judged by the same trace spec.",
+        note="Trusted: TLC, the JSON trace encoding, the recorders/spies in harness/response.py. Exhaustive only within the model bounds (names X/x/Y, list length <= 3, item alphabet a/e-acute/empty/lone byte, 13 status codes); beyond that seeded sampling. Header names, status strings, freeze(), str-subclass values and Locations that urlsplit/IDNA reject are outside the claim. Shape histories: close exactly once is required for the body wrapped at finalisation and for iterables werkzeug itself consumed; iterables the application replaced or consumed are only checked for no double close. Exceptions: ValueError from get_response counts as refusal only when a header-bound argument contains CR/LF; HEAD lengths are compared with the GET twin. Open finding F101 (stale Content-Length after assigning the response attribute).",
+        technique="TLA+ model checking (TLC) of mutator histories and the finalisation table + trace validation of real Headers/Response runs",
+        design_ref="6/C05",
     ),
     # --- END CHECKS (new entries go above this line) ---
 }
